@@ -7,7 +7,8 @@ Reader side : `GeckoSnapshot.parse` (utils/snapshot.py): a table of 15 regular e
               `re.search(.., re.DOTALL)` on every line, all that match fire in table order (later writes overwrite);
               `GeckoSnapshot.parse_log_file` (which lines start / feed / close a snapshot).
 Traffic logs: `str(bytes)` (CPython `bytes.__repr__`) as written by `"Received %s from %s"`, read back by
-              `(STATV.*)</DATAS>` -> `replace("'", "\\x27")` -> `ast.literal_eval("b'..'")` -> STATV decoder.
+              `(STATV.*)</DATAS>` -> tokenising quote replacement (`re.sub(r"\\.|'", ..)`) -> `ast.literal_eval("b'..'")`
+              -> STATV decoder.
 
 Text is `List Char` throughout (`String` only at the API surface).  Each regular expression is modelled by a small total
 function with the leftmost / greedy / backtracking meaning of that particular expression; the expression texts themselves
@@ -59,11 +60,11 @@ def decToNat (cs : Text) : Option Nat := if cs.isEmpty || !cs.all isDigit then n
 def hexFold (cs : Text) : Option Nat :=
   cs.foldl (fun a c => match a, hexVal c with | some a, some v => some (a * 16 + v) | _, _ => none) (some 0)
 
-def stripSpaces (cs : Text) : Text := ((cs.dropWhile (· == ' ')).reverse.dropWhile (· == ' ')).reverse
+/-- `str.strip()` (ASCII whitespace) -/
+def stripSpaces (cs : Text) : Text := ((cs.dropWhile isSpace).reverse.dropWhile isSpace).reverse
 
-/-- `int(s, 16)` on text over the alphabet of the block regex (hex digits, `x`, backslash, quote, space):
-surrounding blanks are ignored, one optional `0x` prefix, then at least one hex digit and nothing else.
-`none` = ValueError.  (Signs, `0X`, underscores cannot occur in that alphabet.) -/
+/-- `int(s, 16)` on the tokens the block expression lets through (`0x` + hex digits): surrounding blanks are ignored, one
+optional `0x` prefix, then at least one hex digit and nothing else.  `none` = ValueError. -/
 def pyIntHex (cs : Text) : Option Nat :=
   let t := stripSpaces cs
   let d := match t with
@@ -90,18 +91,49 @@ def renderItems : List Byte → Text
 def renderBlockL (bs : List Byte) : Text := '[' :: renderItems bs ++ [']']
 def renderBlock (bs : List Byte) : String := String.ofList (renderBlockL bs)
 
-/-- the character class `[0-9A-Fa-fx\\' ,]` -/
-def dataClass (c : Char) : Bool := isHexDigit c || c == 'x' || c == '\\' || c == '\'' || c == ' ' || c == ','
+/-- `'0x[0-9A-Fa-f]+'` at the head of the text: what follows the item -/
+def itemAt : Text → Option Text
+  | a :: b :: c :: s =>
+    if a == '\'' && b == '0' && c == 'x' && !(s.takeWhile isHexDigit).isEmpty then
+      match s.dropWhile isHexDigit with
+      | d :: r => if d == '\'' then some r else none
+      | [] => none
+    else none
+  | _ => none
 
-/-- `re.search(r"\[([0-9A-Fa-fx\\' ,]*)\]", line)`: leftmost `[` whose maximal run of class characters is followed by `]`
-(a shorter run cannot help: the class does not contain `]`).  Returns the group. -/
+/-- `(?:,\s*'0x[0-9A-Fa-f]+')*` greedy: what follows the last repetition that matches (fuel = an upper bound on the number
+of repetitions).  Giving a repetition back cannot help what comes next (`]`): the text would continue with its comma. -/
+def moreItems : Nat → Text → Text
+  | 0, s => s
+  | f + 1, s =>
+    match s with
+    | c :: s' =>
+      if c == ',' then
+        match itemAt (s'.dropWhile isSpace) with
+        | some r => moreItems f r
+        | none => s
+      else s
+    | [] => s
+
+/-- the expression after its `\[`: items, `\]`, then only white space up to the end (`\s*$`); returns the group -/
+def listAt (s : Text) : Option Text :=
+  match itemAt s with
+  | none => none
+  | some r =>
+    let rest := moreItems r.length r
+    match rest with
+    | d :: tail => if d == ']' && tail.all isSpace then some (s.take (s.length - rest.length)) else none
+    | [] => none
+
+/-- `re.search(r"\[('0x[0-9A-Fa-f]+'(?:,\s*'0x[0-9A-Fa-f]+')*)\]\s*$", line)`: the leftmost `[` from which a well-formed,
+non-empty list of quoted hex numbers runs up to a `]` that only white space separates from the end.  Returns the group. -/
 def reData : Text → Option Text
   | [] => none
   | c :: s =>
     if c == '[' then
-      match s.dropWhile dataClass with
-      | ']' :: _ => some (s.takeWhile dataClass)
-      | _ => reData s
+      match listAt s with
+      | some g => some g
+      | none => reData s
     else reData s
 
 /-- `str.split(",")` -/
@@ -213,7 +245,7 @@ def regexTexts : List String := [
   "intouch version CO (\\d+) v(\\d+)\\.(\\d+)",
   "Config version (\\d+)",
   "Log version (\\d+)",
-  "\\[([0-9A-Fa-fx\\\\' ,]*)\\]",
+  "\\[('0x[0-9A-Fa-f]+'(?:,\\s*'0x[0-9A-Fa-f]+')*)\\]\\s*$",
   "PackType adjusted data = (\\w+)",
   "PackConfID @ 297, Word raw data = (\\d+)",
   "PackConfRev @ 299, Byte raw data = (\\d+)",
@@ -274,10 +306,16 @@ def escBytes (q : Char) (bs : List Byte) : Text := bs.flatMap (escByte q)
 def pyReprBytesL (bs : List Byte) : Text := 'b' :: quoteOf bs :: escBytes (quoteOf bs) bs ++ [quoteOf bs]
 def pyReprBytes (bs : List Byte) : String := String.ofList (pyReprBytesL bs)
 
-/-- `data.replace("'", "\\x27")` of `_re_data_segment` -/
-def fixQuotes : Text → Text
-  | [] => []
-  | c :: s => if c == sq then bsl :: 'x' :: '2' :: '7' :: fixQuotes s else c :: fixQuotes s
+/-- `re.sub(r"\\.|'", lambda m: "\\x27" if m.group(0) in ("'", "\\'") else m.group(0), data, flags=re.DOTALL)` of
+`_re_data_segment`: left to right, a backslash takes the next character with it (any character); `\'` and a bare `'` become
+`\x27`, every other escape stays; a backslash at the very end is left alone.  `esc` = a backslash is pending. -/
+def fixQ : Bool → Text → Text
+  | false, [] => []
+  | true, [] => [bsl]
+  | false, c :: s => if c == bsl then fixQ true s else if c == sq then bsl :: 'x' :: '2' :: '7' :: fixQ false s else c :: fixQ false s
+  | true, e :: s => if e == sq then bsl :: 'x' :: '2' :: '7' :: fixQ false s else bsl :: e :: fixQ false s
+
+def fixQuotes (t : Text) : Text := fixQ false t
 
 instance {ε α} [DecidableEq ε] [DecidableEq α] : DecidableEq (Except ε α) := fun a b =>
   match a, b with
@@ -537,11 +575,12 @@ def writeSnapshot (stamps : List Text) (name : Text) (h : Header) (bs : List Byt
 def nameTail (name : Text) : Text := t!"Snapshot (" ++ (name ++ [')', '\n'])
 
 /-- snapshot names for which the round trip is claimed: printable ASCII (the model's classes `\d \w \s .` are ASCII, and a
-line break inside the name would split the record); the block expression, if it fires on the name line, decodes without
-ValueError (exact: D14 is the complement); the traffic expression `(STATV.*)</DATAS>` does not fire (sufficient); the name
-does not contain the text that makes `parse_log_file` open a connection record. -/
+line break inside the name would split the record); the traffic expression `(STATV.*)</DATAS>` does not fire on the name
+line (sufficient; recorded finding `name:struct.error:_re_data_segment`); the name does not contain the text that makes
+`parse_log_file` open a connection record (recorded finding `name:extra-records`).  Brackets are harmless since 609eb50:
+the block expression cannot match a line that ends with `)`. -/
 def SafeName (name : Text) : Prop :=
-  name.all printable = true ∧ dataLine (nameTail name) ≠ .raises ∧ searchRe reStatv (nameTail name) = none ∧
+  name.all printable = true ∧ searchRe reStatv (nameTail name) = none ∧
   hasSub t!"Starting spa connection handshake..." (nameTail name) = false
 
 instance (name : Text) : Decidable (SafeName name) := by unfold SafeName; exact inferInstance
